@@ -46,6 +46,14 @@ def child_env(prop: str, hashseed: str = "0") -> dict:
     env.setdefault("NUMBA_THREADING_LAYER", "workqueue")
     if prop != "C19":
         env["NUMBA_NUM_THREADS"] = "1"
+    else:
+        env["VERIF_PROP_IS_C19"] = "1"  # C19 sets thread counts itself, per run
+    try:
+        import importlib
+
+        env.update(getattr(importlib.import_module(f"props.{prop.lower()}_meta"), "CHILD_ENV", None) or {})
+    except ImportError:
+        pass
     # VERIF_NUMBA_CACHE: dev tooling running many scratch trees side by side gives each its own
     # directory (and turns pruning off) so that concurrent drivers never prune one another
     # compiled kernels check their array indices: an out-of-range index in a serial kernel raises IndexError (a
